@@ -156,8 +156,11 @@ def validate_trace(ctx, trace, tag):
             if v["verdict"] == "wrong_field_type" and v.get("carried") and not used:
                 details = [d + "+id" for d in details]
             for d in details:
-                ctx.violation(dict(op="run_over_existing" if used else "run", **{"class": v["verdict"]},
-                                   args=v["form"], shape=v["shape"], detail=d),
+                sig = dict(op="run_over_existing" if used else "run", **{"class": v["verdict"]},
+                           args=v["form"], shape=v["shape"], detail=d)
+                if used:
+                    sig["schema"] = line.get("schema", "untouched")   # (a rerun in place leaves it untouched)
+                ctx.violation(sig,
                               dict(case=case, trace_line=line, statement=STATEMENT,
                                    note="CodegenTrace rejects this recorded run: " + v["verdict"]))
         if rejected == 0:
@@ -188,7 +191,9 @@ def run(ctx):
                 "removed first; odd runs: over the output of the run before); every Prepare successor is the same "
                 "input in a directory that holds the output of another input (each other argument form of the "
                 "document; the document without its last object / with one more object): earlier run, then the "
-                "input in the same directory, compared with exp and with the bytes of a fresh directory; plus seeded "
+                "input in the same directory (the schema file written once and older than the output when only the "
+                "arguments differ, replaced and newer when the document does), compared with exp and with the bytes "
+                "of a fresh directory; plus seeded "
                 "random documents (<= 8 objects x <= 8 properties, arbitrary identifiers, three YAML styles) x 3 "
                 "argument forms in fresh directories and once more one after the other (and with the document cut "
                 "by an object) in one directory; distinct = distinct (type assignment of the document, argument "
@@ -236,9 +241,12 @@ def run(ctx):
     with_id = sorted({p["tid"] for v in vectors for o in v["doc"] for p in o["props"] if p["tid"] != "ref" and p["ref"]})
     if with_id != [t for t in stats["sdk_typeids"] if t != "ref"]:
         raise common.Infra("CodegenMC enumerates an id of its own only with the type IDs %s" % with_id)
-    for rel in ("over_longer_output", "over_shorter_output"):
+    for rel in ("over_longer_output", "over_shorter_output", "schema_untouched", "schema_replaced"):
         if not stats["over"].get(rel):
             raise common.Infra("no run %s among the vectors of a used directory: %s" % (rel, stats["over"]))
+    if sum(1 for v in used_dir if v["schema"] == "untouched") != stats["over"]["schema_untouched"]:
+        raise common.Infra("vectors with an untouched schema file: specification %d, driver %d"
+                           % (sum(1 for v in used_dir if v["schema"] == "untouched"), stats["over"]["schema_untouched"]))
     over_vec = dict(stats["over"])
     ctx.log("vectors: %d inputs in a fresh directory, %d in a used directory %s (%d not judged), %d generator runs so far"
             % (len(plain), len(used_dir), over_vec, stats["over_skipped"], ctx.evaluations))
@@ -287,7 +295,9 @@ def run(ctx):
         "flow) and checked by re-parsing with yaml.v3",
         "the input of the generator is the schema file and the arguments: what typedef_output.go held before the "
         "run is no part of it, so a run over the output of an earlier run (other arguments, another document, the "
-        "same input) must give the bytes of a run in a fresh directory",
+        "same input) must give the bytes of a run in a fresh directory; the arguments are part of the input, so "
+        "this holds with an untouched schema file that is older than the output as well (modification times are "
+        "set by the harness to the true order of events: schema written, then output generated)",
         "a type other than ref that carries an id (type_id: object, id: Inner) is not a reference: its field is "
         "typed by the type ID",
     ]
